@@ -41,7 +41,8 @@ func c19Vouchers(x *mc.Cell, r Role, depth int) {
 					if r.Created() {
 						menu = []string{"send-voucher", "send-voucher(send fails)", "incoming-result", "incoming-result(rejected)", "incoming-result(empty)"}
 					} else {
-						menu = []string{"send-result", "send-result(send fails)", "incoming-voucher", "validation-update(result)", "validation-update(no result)", "validation-update(nil node)", "validation-update(reject+result)"}
+						menu = []string{"send-result", "send-result(send fails)", "incoming-voucher", "validation-update(result)", "validation-update(no result)", "validation-update(nil node)", "validation-update(reject+result)",
+							"local-restart(validator returns a result)", "incoming-restart-request(validator returns a result)"}
 					}
 					a := menu[c.Choose(len(menu), fmt.Sprintf("op%d", step))]
 					log = append(log, a)
@@ -84,6 +85,27 @@ func c19Vouchers(x *mc.Cell, r Role, depth int) {
 						aerr = n.Mgr.UpdateValidationStatus(context.Background(), chid, datatransfer.ValidationResult{Accepted: true})
 					case "validation-update(nil node)":
 						aerr = n.Mgr.UpdateValidationStatus(context.Background(), chid, datatransfer.ValidationResult{Accepted: true, VoucherResult: &datatransfer.TypedVoucher{Type: "R"}})
+					case "local-restart(validator returns a result)":
+						// the responder asks the initiator to restart: the re-validation result is not sent to anybody yet
+						n.Val["T"].Answer = func(int, doubles.VCall) (datatransfer.ValidationResult, error) {
+							return datatransfer.ValidationResult{Accepted: true, VoucherResult: &nr}, nil
+						}
+						aerr = n.Mgr.RestartDataTransferChannel(context.Background(), chid)
+					case "incoming-restart-request(validator returns a result)":
+						// the initiator's restart request is re-validated and answered with the result: one entry
+						n.Val["T"].Answer = func(int, doubles.VCall) (datatransfer.ValidationResult, error) {
+							return datatransfer.ValidationResult{Accepted: true, VoucherResult: &nr}, nil
+						}
+						ov := doubles.Voucher("T", "v")
+						if r.Pull() {
+							_, aerr = n.H().OnRequestReceived(chid, doubles.Recode(NewReq(uint64(chid.ID), true, true, &ov)).(datatransfer.Request))
+							if aerr == datatransfer.ErrPause {
+								aerr = nil
+							}
+						} else {
+							n.RecvRequest(doubles.PeerB, NewReq(uint64(chid.ID), true, false, &ov))
+						}
+						wantR = 1
 					case "validation-update(reject+result)":
 						aerr = n.Mgr.UpdateValidationStatus(context.Background(), chid, datatransfer.ValidationResult{Accepted: false, VoucherResult: &nr})
 						wantR = 1
